@@ -137,17 +137,23 @@ Definition decompose_tagmarkup (tm : markup) : result (bool * list Z * rle) :=
 (* ------------------------------------------------------------------------------------ *)
 (* (2) canvas.py: apply_text_layout                                                      *)
 
-(* one character of the text: bytes it occupies after apply_target_encoding, columns, and
-   whether str.isascii() holds of it *)
-Record chr := Chr { c_enc : Z; c_wid : Z; c_ascii : bool }.
+(* one character of the text: bytes it occupies after apply_target_encoding, the columns of
+   those bytes on the canvas, whether str.isascii() holds of it, and the columns the layout
+   functions (calc_text_pos / calc_width on the TEXT) count for it *)
+Record chr := Chr { c_enc : Z; c_wid : Z; c_ascii : bool; c_lw : Z }.
+
+(* one displayed character of a byte string (a canvas row, an insert text): bytes and columns *)
+Record rchr := RC { r_len : Z; r_wid : Z }.
+Fixpoint rc_len (l : list rchr) : Z := match l with [] => 0 | c :: t => r_len c + rc_len t end.
+Fixpoint rc_wid (l : list rchr) : Z := match l with [] => 0 | c :: t => r_wid c + rc_wid t end.
 
 Inductive seg :=
   | SText (sc offs e : Z)                     (* (sc, offs, end) *)
-  | SIns (sc offs rawlen ilen iw : Z)         (* (sc, offs, b"text"): len(text), encoded len, columns *)
+  | SIns (sc offs : Z) (txt : list rchr) (ilen : Z)   (* (sc, offs, b"text"): its characters, encoded length *)
   | SPad (sc : Z) (offs : oz).                (* (sc, offs) / (sc, None) *)
 
 Definition seg_sc (s : seg) : Z :=
-  match s with SText sc _ _ => sc | SIns sc _ _ _ _ => sc | SPad sc _ => sc end.
+  match s with SText sc _ _ => sc | SIns sc _ _ _ => sc | SPad sc _ => sc end.
 
 (* text[a:b] with Python slice semantics *)
 Definition py_slice {A} (l : list A) (a b : Z) : list A :=
@@ -208,10 +214,105 @@ Definition attrrange (isb : bool) (text : list chr) (attrs : rle) (st : awstate)
 Definition seg_check (s : seg) : result unit :=
   match s with
   | SText sc _ _ => if sc <=? 0 then Err ValueError else Ok tt
-  | SIns sc _ _ _ _ => if sc <=? 0 then Err ValueError else Ok tt
+  | SIns sc _ _ _ => if sc <=? 0 then Err ValueError else Ok tt
   | SPad sc (Some _) => if sc <? 0 then Err ValueError else Ok tt
   | SPad _ None => Ok tt
   end.
+
+(* ---- trim_line / LayoutSegment.subseg (text_layout.py) ---- *)
+
+(* str_util.calc_text_pos on a row from a character boundary: walk whole characters while the
+   next one still fits in pref_col ("if w + sc > pref_col: return i, sc") *)
+Fixpoint text_pos (cs : list rchr) (i sc pref : Z) : Z * Z :=
+  match cs with
+  | [] => (i, sc)
+  | c :: t => if pref <? r_wid c + sc then (i, sc) else text_pos t (i + r_len c) (sc + r_wid c) pref
+  end.
+
+(* the characters of the row from byte offset n on (n a character boundary) *)
+Fixpoint drop_bytes (cs : list rchr) (n : Z) : list rchr :=
+  match cs with
+  | [] => []
+  | c :: t => if n <=? 0 then cs else drop_bytes t (n - r_len c)
+  end.
+
+(* calc_trim_text(text, 0, len(text), start_col, end_col) -> (spos, epos, pad_left, pad_right) *)
+Definition calc_trim_text (cs : list rchr) (start_col end_col : Z) : Z * Z * Z * Z :=
+  let '(spos, pl) :=
+    if 0 <? start_col then
+      let '(sp, sc) := text_pos cs 0 0 start_col in
+      if sc <? start_col then (fst (text_pos cs 0 0 (start_col + 1)), 1) else (sp, 0)
+    else (0, 0) in
+  let run := end_col - start_col - pl in
+  let '(pos, sc) := text_pos (drop_bytes cs spos) spos 0 run in
+  (spos, pos, pl, if sc <? run then 1 else 0).
+
+(* the first n bytes of a character list (n a character boundary) *)
+Fixpoint take_bytes (cs : list rchr) (n : Z) : list rchr :=
+  match cs with
+  | [] => []
+  | c :: t => if n <=? 0 then [] else c :: take_bytes t (n - r_len c)
+  end.
+
+(* the characters of text[offs:end] as calc_text_pos walks them: one offset each *)
+Definition text_rchars (text : list chr) (offs e : Z) : list rchr :=
+  map (fun c => RC 1 (c_lw c)) (py_slice text offs e).
+
+(* LayoutSegment.subseg(text, start, end).  An insert that is cut is assumed to hold no SO/SI
+   (its encoded length is its length). *)
+Definition subseg (text : list chr) (s : seg) (start e : Z) : result (list seg) :=
+  let start := Z.max start 0 in
+  let e := Z.min e (seg_sc s) in
+  if e <=? start then Ok [] else
+  match s with
+  | SIns sc offs txt ilen =>
+      if negb (rc_len txt =? 0) then
+        let '(spos, epos, pl, pr) := calc_trim_text txt start e in
+        let txt' := repeat (RC 1 1) (Z.to_nat pl) ++ take_bytes (drop_bytes txt spos) (epos - spos)
+                    ++ repeat (RC 1 1) (Z.to_nat pr) in
+        Ok [SIns (e - start) offs txt' (rc_len txt')]
+      else Ok [SPad (e - start) (Some offs)]
+  | SText sc offs en =>
+      if negb (en =? 0) then
+        if (offs <? 0) || (en <? offs) || (zlen text <? en) then Err OtherError   (* outside the modelled domain *)
+        else
+        let '(spos0, epos0, pl, pr) := calc_trim_text (text_rchars text offs en) start e in
+        let spos := offs + spos0 in
+        let epos := offs + epos0 in
+        Ok ((if negb (pl =? 0) then [SPad 1 (Some (spos - 1))] else []) ++
+            (if negb (e - start - pl - pr =? 0) then [SText (e - start - pl - pr) spos epos] else []) ++
+            (if negb (pr =? 0) then [SPad 1 (Some epos)] else []))
+      else Ok [SPad (e - start) (Some offs)]
+  | SPad sc o => Ok [SPad (e - start) o]
+  end.
+
+(* trim_line(segs, text, start, end): note that x is only advanced while start is being consumed *)
+Fixpoint trim_line_go (text : list chr) (segs : list seg) (start x e : Z) (acc : list seg) : result (list seg) :=
+  match segs with
+  | [] => Ok acc
+  | s :: r =>
+      let sc := seg_sc s in
+      if negb (start =? 0) || (sc <? 0) then
+        if sc <=? start then trim_line_go text r (start - sc) (x + sc) e acc
+        else match seg_check s with
+             | Err er => Err er
+             | Ok _ =>
+                 if e <=? x + sc then subseg text s start (e - x)          (* return s.subseg(...) *)
+                 else match subseg text s start sc with
+                      | Err er => Err er
+                      | Ok l => trim_line_go text r 0 (x + sc) e (acc ++ l)
+                      end
+             end
+      else if e <=? x then Ok acc
+      else if e <? x + sc then
+        match seg_check s with
+        | Err er => Err er
+        | Ok _ => match subseg text s 0 (e - x) with Err er => Err er | Ok l => Ok (acc ++ l) end
+        end
+      else trim_line_go text r start x e (acc ++ [s])
+  end.
+Definition trim_line (text : list chr) (segs : list seg) (maxcol : Z) : result (list seg) :=
+  trim_line_go text segs 0 0 maxcol [].
 
 (* accumulated line: attribute runs, bytes so far, columns so far *)
 Record lstate := LS { l_attr : rle; l_bytes : Z; l_cols : Z; l_aw : awstate }.
@@ -222,8 +323,8 @@ Definition do_seg (isb : bool) (text : list chr) (attrs : rle) (ls : lstate) (s 
   | Err x => Err x
   | Ok _ =>
     let s_end := match s with SText _ _ e => e | _ => 0 end in
-    let s_text := match s with SIns _ _ rawlen _ _ => rawlen | _ => 0 end in
-    let s_offs := match s with SText _ o _ => o | SIns _ o _ _ _ => o | SPad _ (Some o) => o | SPad _ None => 0 end in
+    let s_text := match s with SIns _ _ txt _ => rc_len txt | _ => 0 end in
+    let s_offs := match s with SText _ o _ => o | SIns _ o _ _ => o | SPad _ (Some o) => o | SPad _ None => 0 end in
     let sc := seg_sc s in
     if negb (s_end =? 0) then                                       (* if s.end: *)
       let destw := enc_len text s_offs s_end in
@@ -232,7 +333,7 @@ Definition do_seg (isb : bool) (text : list chr) (attrs : rle) (ls : lstate) (s 
       | Ok (la, aw) => Ok (LS la (l_bytes ls + destw) (l_cols ls + sum_wid (py_slice text s_offs s_end)) aw)
       end
     else if negb (s_text =? 0) then                                 (* elif s.text: *)
-      let '(ilen, iw) := match s with SIns _ _ _ ilen iw => (ilen, iw) | _ => (0, 0) end in
+      let '(ilen, iw) := match s with SIns _ _ txt ilen => (ilen, rc_wid txt) | _ => (0, 0) end in
       match attrrange isb text attrs (l_aw ls) (l_attr ls) s_offs s_offs ilen with
       | Err x => Err x
       | Ok (la, aw) => Ok (LS la (l_bytes ls + ilen) (l_cols ls + iw) aw)
@@ -255,22 +356,22 @@ Fixpoint do_segs (isb : bool) (text : list chr) (attrs : rle) (ls : lstate) (seg
   | s :: r => match do_seg isb text attrs ls s with Err x => Err x | Ok ls' => do_segs isb text attrs ls' r end
   end.
 
-(* trim_line(line_layout, text, 0, maxcol) is NOT modelled: [lines] below are the lines as
-   trim_line returns them (layout data; the column arithmetic of trimming belongs to the
-   text-layout property).  Everything after that call is modelled. *)
-
 (* the "for line_layout in ls" loop: the walker state is shared by all lines *)
 Fixpoint do_lines (isb : bool) (text : list chr) (attrs : rle) (maxcol : Z) (aw : awstate) (lines : list (list seg))
   : result (list lstate) :=
   match lines with
   | [] => Ok []
   | l :: r =>
-      match do_segs isb text attrs (LS [] 0 0 aw) l with
+      match trim_line text l maxcol with                    (* line_layout = trim_line(line_layout, text, 0, maxcol) *)
       | Err x => Err x
-      | Ok ls => match do_lines isb text attrs maxcol (l_aw ls) r with
-                 | Err x => Err x
-                 | Ok rs => Ok (ls :: rs)
-                 end
+      | Ok l' =>
+        match do_segs isb text attrs (LS [] 0 0 aw) l' with
+        | Err x => Err x
+        | Ok ls => match do_lines isb text attrs maxcol (l_aw ls) r with
+                   | Err x => Err x
+                   | Ok rs => Ok (ls :: rs)
+                   end
+        end
       end
   end.
 
@@ -304,35 +405,6 @@ Definition apply_text_layout (isb : bool) (text : list chr) (attrs : rle) (lines
 (* (2b) clipping a rendered row: util.py calc_trim_text / trim_text_attr_cs (attribute part),
    rle_subseg, rle_prepend_modify, as used by TextCanvas.content(trim_left, cols) for every
    partially shown canvas (CompositeCanvas.pad_trim_left_right, Overlay, Padding/Columns clip) *)
-
-(* one displayed character of a canvas row: bytes and columns (data) *)
-Record rchr := RC { r_len : Z; r_wid : Z }.
-
-(* str_util.calc_text_pos on a row from a character boundary: walk whole characters while the
-   next one still fits in pref_col ("if w + sc > pref_col: return i, sc") *)
-Fixpoint text_pos (cs : list rchr) (i sc pref : Z) : Z * Z :=
-  match cs with
-  | [] => (i, sc)
-  | c :: t => if pref <? r_wid c + sc then (i, sc) else text_pos t (i + r_len c) (sc + r_wid c) pref
-  end.
-
-(* the characters of the row from byte offset n on (n a character boundary) *)
-Fixpoint drop_bytes (cs : list rchr) (n : Z) : list rchr :=
-  match cs with
-  | [] => []
-  | c :: t => if n <=? 0 then cs else drop_bytes t (n - r_len c)
-  end.
-
-(* calc_trim_text(text, 0, len(text), start_col, end_col) -> (spos, epos, pad_left, pad_right) *)
-Definition calc_trim_text (cs : list rchr) (start_col end_col : Z) : Z * Z * Z * Z :=
-  let '(spos, pl) :=
-    if 0 <? start_col then
-      let '(sp, sc) := text_pos cs 0 0 start_col in
-      if sc <? start_col then (fst (text_pos cs 0 0 (start_col + 1)), 1) else (sp, 0)
-    else (0, 0) in
-  let run := end_col - start_col - pl in
-  let '(pos, sc) := text_pos (drop_bytes cs spos) spos 0 run in
-  (spos, pos, pl, if sc <? run then 1 else 0).
 
 (* rle_subseg(rle, start, end) *)
 Fixpoint rle_subseg_go (r : rle) (x start e : Z) : rle :=
@@ -692,12 +764,12 @@ Definition run_markup (l : list Z) : list Z :=
   | None => [-2]
   end.
 
-(* n (enc wid ascii)* *)
+(* n (enc wid ascii lw)* *)
 Fixpoint dec_chars (n : nat) (l : list Z) : option (list chr * list Z) :=
   match n with
   | O => Some ([], l)
   | S k => match l with
-           | e :: w :: a :: r => match dec_chars k r with Some (cs, r) => Some (Chr e w (dec_bool a) :: cs, r) | None => None end
+           | e :: w :: a :: lw :: r => match dec_chars k r with Some (cs, r) => Some (Chr e w (dec_bool a) lw :: cs, r) | None => None end
            | _ => None
            end
   end.
@@ -709,10 +781,19 @@ Fixpoint dec_runs (n : nat) (l : list Z) : option (rle * list Z) :=
            | _ => None
            end
   end.
+Fixpoint dec_rchars (n : nat) (l : list Z) : option (list rchr * list Z) :=
+  match n with
+  | O => Some ([], l)
+  | S k => match l with
+           | b :: w :: r => match dec_rchars k r with Some (cs, r) => Some (RC b w :: cs, r) | None => None end
+           | _ => None
+           end
+  end.
 Definition dec_seg (l : list Z) : option (seg * list Z) :=
   match l with
   | 0 :: sc :: o :: e :: r => Some (SText sc o e, r)
-  | 1 :: sc :: o :: rawlen :: ilen :: iw :: r => Some (SIns sc o rawlen ilen iw, r)
+  | 1 :: sc :: o :: ilen :: n :: r =>
+      match dec_rchars (Z.to_nat n) r with Some (txt, r) => Some (SIns sc o txt ilen, r) | None => None end
   | 2 :: sc :: r => match dec_oz r with Some (o, r) => Some (SPad sc o, r) | None => None end
   | _ => None
   end.
@@ -970,14 +1051,6 @@ Definition run_palette (l : list Z) : list Z :=
   end.
 
 (* clips: nq (start_col end_col nchars (len wid)* nruns (attr run)* )* -> per query spos epos pl pr runs *)
-Fixpoint dec_rchars (n : nat) (l : list Z) : option (list rchr * list Z) :=
-  match n with
-  | O => Some ([], l)
-  | S k => match l with
-           | b :: w :: r => match dec_rchars k r with Some (cs, r) => Some (RC b w :: cs, r) | None => None end
-           | _ => None
-           end
-  end.
 Fixpoint run_clips (n : nat) (l : list Z) : list Z :=
   match n with
   | O => []
